@@ -15,7 +15,7 @@ REPO = "/repo"
 def apply(dst, subs):
     if isinstance(subs, str):
         # a patch file under selftest/ (multi-hunk changes)
-        r = subprocess.run(["patch", "-p1", "-s", "-d", dst, "-i", os.path.join(VERIF, "selftest", subs)], stdout=subprocess.PIPE, stderr=subprocess.STDOUT, text=True)
+        r = subprocess.run(["git", "apply", os.path.abspath(os.path.join(VERIF, "selftest", subs))], cwd=dst, stdout=subprocess.PIPE, stderr=subprocess.STDOUT, text=True)
         return None if r.returncode == 0 else "patch %s does not apply: %s" % (subs, r.stdout[:200])
     for f, nth, old, new in subs:
         p = os.path.join(dst, f)
